@@ -87,37 +87,37 @@ section
 variable (fault : Call → Nat → Option Fault)
 
 /-- One `close` of `closeFds`. -/
-def closeOne (s : St) (hv : Bool) : St × Bool :=
+def closeOne (c : Call) (s : St) (hv : Bool) : St × Bool :=
   if hv then
-    match issue fault s .close with
+    match issue fault s c with
     | (s, some (.err e)) => ({ s with errno := e, closed := s.closed + 1 }, true)
     | (s, _) => ({ s with closed := s.closed + 1 }, false)
   else (s, false)
 
 theorem closeFds_eq (s : St) (h1 h2 : Bool) : closeFds fault s h1 h2 =
-    (let r1 := closeOne fault s h1
-     let r2 := closeOne fault r1.1 h2
+    (let r1 := closeOne fault .closeDst s h1
+     let r2 := closeOne fault .closeSrc r1.1 h2
      (r2.1, if errnoStatus s.errno ≠ 0 then errnoStatus s.errno
             else if (if r1.2 then 0 else errnoStatus r1.1.errno) ≠ 0 then (if r1.2 then 0 else errnoStatus r1.1.errno)
             else (if r2.2 then 0 else errnoStatus r2.1.errno))) := rfl
 
-theorem closeOne_frame (s : St) (hv : Bool) :
-    (closeOne fault s hv).1.src = s.src ∧ (closeOne fault s hv).1.dst = s.dst ∧
-    (closeOne fault s hv).1.opened = s.opened ∧
-    (closeOne fault s hv).1.closed = s.closed + hv.toNat := by
+theorem closeOne_frame (c : Call) (s : St) (hv : Bool) :
+    (closeOne fault c s hv).1.src = s.src ∧ (closeOne fault c s hv).1.dst = s.dst ∧
+    (closeOne fault c s hv).1.opened = s.opened ∧
+    (closeOne fault c s hv).1.closed = s.closed + hv.toNat := by
   unfold closeOne
   cases hv
   · simp
   · simp only [issue_eq, if_true]
-    rcases fault .close (s.count .close) with _ | ⟨e⟩ | ⟨n⟩ <;> simp
+    rcases fault c (s.count c) with _ | ⟨e⟩ | ⟨n⟩ <;> simp
 
-theorem closeOne_ok (s : St) (hv : Bool) (h : ∀ n e, fault .close n ≠ some (.err e)) :
-    (closeOne fault s hv).2 = false ∧ (closeOne fault s hv).1.errno = s.errno := by
+theorem closeOne_ok (c : Call) (s : St) (hv : Bool) (h : ∀ n e, fault c n ≠ some (.err e)) :
+    (closeOne fault c s hv).2 = false ∧ (closeOne fault c s hv).1.errno = s.errno := by
   unfold closeOne
   cases hv
   · simp
   · simp only [issue_eq, if_true]
-    rcases hf : fault .close (s.count .close) with _ | ⟨e⟩ | ⟨n⟩ <;> simp
+    rcases hf : fault c (s.count c) with _ | ⟨e⟩ | ⟨n⟩ <;> simp
     exact h _ _ hf
 
 /-- The part of `finishCopy` before `closeFds`. -/
@@ -160,8 +160,8 @@ theorem closeFds_frame :
     (closeFds fault s hd hs).1.opened = s.opened ∧
     (closeFds fault s hd hs).1.closed = s.closed + hd.toNat + hs.toNat := by
   rw [closeFds_eq]
-  have h1 := closeOne_frame fault s hd
-  have h2 := closeOne_frame fault (closeOne fault s hd).1 hs
+  have h1 := closeOne_frame fault .closeDst s hd
+  have h2 := closeOne_frame fault .closeSrc (closeOne fault .closeDst s hd).1 hs
   simp only []
   refine ⟨?_, ?_, ?_, ?_⟩
   · rw [h2.1, h1.1]
@@ -169,11 +169,12 @@ theorem closeFds_frame :
   · rw [h2.2.2.1, h1.2.2.1]
   · rw [h2.2.2.2, h1.2.2.2]
 
-theorem closeFds_ok (h : ∀ n e, fault .close n ≠ some (.err e)) (he : s.errno = 0) :
+theorem closeFds_ok (h : ∀ n e, fault .closeDst n ≠ some (.err e)) (h' : ∀ n e, fault .closeSrc n ≠ some (.err e))
+    (he : s.errno = 0) :
     (closeFds fault s hd hs).2 = 0 := by
   rw [closeFds_eq]
-  have h1 := closeOne_ok fault s hd h
-  have h2 := closeOne_ok fault (closeOne fault s hd).1 hs h
+  have h1 := closeOne_ok fault .closeDst s hd h
+  have h2 := closeOne_ok fault .closeSrc (closeOne fault .closeDst s hd).1 hs h'
   simp only []
   rw [h1.1, h2.1, h2.2, h1.2, he]
   simp
@@ -211,11 +212,12 @@ theorem status_zero_of_finishCopy (h : (finishCopy fault s hd hs status).2 = 0) 
   · rw [finishCopy_status_of_ne fault s hd hs status h0] at h; exact h
 
 theorem finishCopy_ok (hsync : ∀ n e, fault .fdatasync n ≠ some (.err e))
-    (hclose : ∀ n e, fault .close n ≠ some (.err e)) (he : s.errno = 0) (hst : status = 0) :
+    (hclose : ∀ n e, fault .closeDst n ≠ some (.err e)) (hclose' : ∀ n e, fault .closeSrc n ≠ some (.err e))
+    (he : s.errno = 0) (hst : status = 0) :
     (finishCopy fault s hd hs status).2 = 0 := by
   rw [finishCopy_eq]
   have h1 := syncOne_ok fault s hd hsync
-  have h2 := closeFds_ok fault (syncOne fault s hd).1 hd hs hclose (by rw [h1.2, he])
+  have h2 := closeFds_ok fault (syncOne fault s hd).1 hd hs hclose hclose' (by rw [h1.2, he])
   simp only []
   rw [h1.1, h2, hst]; simp
 end
@@ -700,9 +702,10 @@ theorem finishR_status_of_ne (h : status ≠ 0) : (finishR fault s hd hs status)
 theorem status_zero_of_finishR (h : (finishR fault s hd hs status).status = 0) : status = 0 :=
   status_zero_of_finishCopy fault s hd hs status h
 theorem finishR_ok (hsync : ∀ n e, fault .fdatasync n ≠ some (.err e))
-    (hclose : ∀ n e, fault .close n ≠ some (.err e)) (he : s.errno = 0) (hst : status = 0) :
+    (hclose : ∀ n e, fault .closeDst n ≠ some (.err e)) (hclose' : ∀ n e, fault .closeSrc n ≠ some (.err e))
+    (he : s.errno = 0) (hst : status = 0) :
     (finishR fault s hd hs status).status = 0 :=
-  finishCopy_ok fault s hd hs status hsync hclose he hst
+  finishCopy_ok fault s hd hs status hsync hclose hclose' he hst
 end
 
 /-- Frame condition of a stage entered with `n` descriptors open. -/
@@ -918,7 +921,7 @@ theorem stageFallback_ok (s : St) : (stageFallback w fault s).status = 0 := by
     (bufSizeOf w (fault .alloc (s.count .alloc))) (s.src.length + 2)
     { issueSt fault s .alloc with errno := 0 } (s.dst.getD []).length
   exact finishR_ok fault _ _ _ _ (no_err_of_hok fault hok .fdatasync (by decide) (by decide))
-    (no_err_of_hok fault hok .close (by decide) (by decide)) (by rw [h.2]) h.1
+    (no_err_of_hok fault hok .closeDst (by decide) (by decide)) (no_err_of_hok fault hok .closeSrc (by decide) (by decide)) (by rw [h.2]) h.1
 
 theorem stageCopy_ok (s : St) : (stageCopy w fault s).status = 0 := by
   rw [stageCopy_eq]
@@ -929,7 +932,7 @@ theorem stageCopy_ok (s : St) : (stageCopy w fault s).status = 0 := by
   rcases h with ⟨h1, h2⟩ | h1
   · rw [h1]
     exact finishR_ok fault _ _ _ _ (no_err_of_hok fault hok .fdatasync (by decide) (by decide))
-      (no_err_of_hok fault hok .close (by decide) (by decide)) h2 rfl
+      (no_err_of_hok fault hok .closeDst (by decide) (by decide)) (no_err_of_hok fault hok .closeSrc (by decide) (by decide)) h2 rfl
   · rw [h1]
     exact stageFallback_ok w fault hok hshort _
 
